@@ -36,6 +36,12 @@ Definition access_eqb (a b : access) : bool :=
   | _, _ => false
   end.
 
+Definition disp_eqb (a b : disp) : bool :=
+  match a, b with
+  | DDefault, DDefault | DIgnore, DIgnore | DCatch, DCatch => true
+  | _, _ => false
+  end.
+
 Definition res_eqb (a b : res) : bool :=
   match a, b with
   | RFd x, RFd y => N.eqb x y
@@ -51,8 +57,11 @@ Definition res_eqb (a b : res) : bool :=
   | RFlag x, RFlag y => Bool.eqb x y
   | RAcc x, RAcc y => access_eqb x y
   | RErr x, RErr y => errno_eqb x y
+  | RDisp x, RDisp y => disp_eqb x y
+  | RSigs x, RSigs y => str_eqb x y
   | ROut, ROut => true
   | RHang, RHang => true
+  | RPanic, RPanic => true
   | _, _ => false
   end.
 
@@ -88,6 +97,7 @@ Definition op_class (o : op) : N :=
   | OPipe => 6
   | OReaddir _ => 7
   | OFork | OExit => 8
+  | OSigaction _ _ | OGetSigaction _ | ORaise _ | OCaught | OSigmask _ _ => 12
   end.
 
 Definition clause_tree : N := 9.
@@ -100,7 +110,7 @@ Fixpoint first_diff (ops : list op) (v r : list res) : option N :=
   | o :: ops', x :: v', y :: r' =>
       if res_eqb x y then first_diff ops' v' r'
       else Some (match x, y with
-                 | RHang, _ | _, RHang => clause_shape
+                 | RHang, _ | _, RHang | RPanic, _ | _, RPanic => clause_shape
                  | _, _ => op_class o
                  end)
   | _, _, _ => Some clause_shape
